@@ -143,3 +143,21 @@ func VerifC18_Set() {
 	}
 	vnd.Cover("C18.set")
 }
+
+// VerifC17_CacheOverlap: block events, lookups (hit and miss) and cleaning
+// overlapping one another have no unsynchronised conflicting accesses.
+func VerifC17_CacheOverlap() {
+	s, roots, _, _ := c18Cache(2)
+	ct := s.chainTime.(*vstub.ChainTime)
+	_ = ct
+	q := roots[0]
+	if vnd.Bool("query-miss") {
+		q = phase0.Root{0xee}
+	}
+	go s.SetBlockRootToSlot(phase0.Root{0xaa}, 5)
+	go func() { _, _ = s.BlockRootToSlot(context.Background(), q) }()
+	go s.cleanBlockRootToSlot(context.Background())
+	left := vnd.Quiesce()
+	vnd.Assert(left == 0, "C17.cache.everything-returns")
+	vnd.Cover("C17.cache.overlap-explored")
+}
